@@ -11,7 +11,8 @@ RULE = ("for each of the 16 named operations and the two ufunc_* forms: 2-4 maps
         "regenerated from /repo on every run (translate_ops.py) and its neutrality obligations re-proved; "
         "non-trivial = some pixel valid in a strict subset of the inputs")
 ASSUMPTIONS = ["float values are dyadic and every operation issued is exact in the map precision (else discarded)",
-               "all maps of one call have the same dtype (the library casts silently otherwise)"]
+               "lists mix dtypes only among integers of one signedness (numpy's promoted type is then an integer type "
+               "and narrowing to the first map's dtype is a wrap); float/integer and signed/unsigned mixes are not generated"]
 TRUSTED = ["translate_ops.py: records the arguments the public wrappers pass to _apply_operation by calling them "
            "with the callee replaced by a recorder (no parsing of expressions)"]
 
@@ -84,9 +85,16 @@ def histories(rng, tier):
         c0.covpix = []
         k = rng.choice([2, 2, 3, 4])
         cfgs = [c0]
+        # a list MIXING integer widths of one signedness (numpy folds in the promoted type and narrows to the
+        # first map's dtype on store: seeded change C06e narrowed the operands instead)
+        mixed = (c0.kind == 'plain' and c0.is_int and rng.random() < 0.2 and
+                 name.split('_')[0] in ('min', 'max', 'sum', 'product', 'or', 'and', 'xor', 'floor'))
         for i in range(1, k):
             ci = gen.MapCfg('m%d' % i, c0.kind, c0.covord, c0.spord, dtype=c0.dtype, sentinel=c0.sentinel,
                             maxbits=c0.maxbits, fields=c0.fields, primary=c0.primary)
+            if mixed:
+                ci.dtype = rng.choice([d for d in gen.INT_DTYPES if d[0] == c0.dtype[0]])
+                ci.sentinel = rng.choice(['default', '0'])
             if c0.kind == 'plain' and rng.random() < 0.3:
                 if c0.is_int:
                     ci.sentinel = rng.choice(['default', '0', '7'])
@@ -126,6 +134,26 @@ def histories(rng, tier):
                 h.append(ln)
                 if c is c0:
                     first_lines.append(ln)
+        if mixed:
+            # values of the wider maps that do NOT fit the first map's dtype
+            b0 = gen.BITS[c0.dtype]
+            for i, ln in enumerate(h):
+                t = ln.split()
+                if t[0] != 'upd' or t[1] == 'm0':
+                    continue
+                ci = next(c for c in cfgs if c.name == t[1])
+                if gen.BITS[ci.dtype] <= b0:
+                    continue
+                big = [2 ** b0 + rng.randint(0, 12), 2 ** (b0 - 1) + rng.randint(0, 5)]
+                if ci.dtype[0] == 'i':
+                    big += [-(2 ** b0) - rng.randint(1, 12), -(2 ** (b0 - 1)) - rng.randint(1, 5)]
+                for j, x in enumerate(t):
+                    if x.startswith('vals='):
+                        vs = x[5:].split(',')
+                        t[j] = 'vals=' + ','.join(str(rng.choice(big)) if rng.random() < 0.5 else v for v in vs)
+                    elif x.startswith('val=') and rng.random() < 0.5:
+                        t[j] = 'val=%d' % rng.choice(big)
+                h[i] = ' '.join(t)
         names = ','.join(c.name for c in cfgs)
         if name.startswith('ufunc_'):
             uf = rng.choice(['add', 'multiply', 'fmax', 'fmin', 'subtract'])
